@@ -130,9 +130,11 @@ class Router:
 
     def drain(self):
         out = []
+        self.drained_from = []          # per drained message: the Application-IDs served by the worker it was queued on
         for w in set(self.workers.values()):
             while not w.send_queue.empty():
                 out.append(w.send_queue.get())
+                self.drained_from.append([a for a, ww in self.workers.items() if ww is w])
                 w.send_event.clear()
                 w.send_lock.release()
         return out
@@ -174,7 +176,13 @@ def make_request(a, c, k, rng, typed=False):
 def make_answer(req, rng):
     from bromelia.base import DiameterAnswer
     from bromelia.avps import SessionIdAVP, OriginHostAVP, OriginRealmAVP, ResultCodeAVP
-    return DiameterAnswer(command_code=req.header.command_code, application_id=req.header.application_id,
+    app_id = req.header.application_id
+    if rng.random() < 0.3:
+        # a route function that builds its answer from the message class of another interface (shared command codes): the answer
+        # still belongs to the request, and leaves on the request's connection
+        others = [a.to_bytes(4, "big") for _n, a in APPS.values() if a.to_bytes(4, "big") != bytes(app_id)]
+        app_id = rng.choice(others)
+    return DiameterAnswer(command_code=req.header.command_code, application_id=app_id,
                           avps=[SessionIdAVP(b"placeholder;0;0"), ResultCodeAVP(2001), OriginHostAVP("h.local.example"), OriginRealmAVP("local.example")])
 
 
@@ -238,6 +246,9 @@ def run_scenario(router, table, reqs, rng):
             sent.append("none" if not queued else "many")
             continue
         m = queued[0]
+        if bytes(req.header.application_id) not in [bytes(a) for a in router.drained_from[0]]:
+            problems.append(f"request {k} ({outcome}) of application {bytes(req.header.application_id).hex()}: its answer was queued on the connection of "
+                            f"application(s) {[bytes(a).hex() for a in router.drained_from[0]]}")
         if outcome == "answer":
             if m is not state["answer"]:
                 problems.append(f"request {k}: the message on the send queue is not the handler's answer")
